@@ -553,7 +553,7 @@ func TestC06_CausesByPhases(t *testing.T) {
 		"before it, reason admissible for the cause, not listed, in no room, unknown to the adapter); listed sockets <= live clients; client sockets report once; old Engine.IO "+
 		"sid answers 400 code 1; non-trivial = cause during connect / middleware / burst / upgrade, or two causes at once")
 	rapidGuard(t, "C06", c06Check)
-	runRapid(t, c06Check, tierN(1600, 60000), func(t *rapid.T) {
+	runRapid(t, c06Check, tierN(8000, 80000), func(t *rapid.T) {
 		c := c06Case{Transport: rapid.SampledFrom([]string{"polling", "websocket", "upgrade"}).Draw(t, "transport"), Namespaces: rapid.IntRange(1, 2).Draw(t, "namespaces"),
 			Cause: rapid.SampledFrom(c06Causes).Draw(t, "cause"), Phase: rapid.SampledFrom([]string{"connecting", "middleware", "idle", "burst", "upgrade"}).Draw(t, "phase")}
 		if c.Phase == "upgrade" {
